@@ -13,6 +13,36 @@ def classify(clause, case, verdict):
     return clause
 
 
+# the admin layer alone, for C01 ("... or backfill responses"): the same harness and driver; C01 reports only the clauses that say
+# the backfill path hands anything but what a node served to the processor, or writes the store itself
+BACKFILL_C01 = ("backfill-wrote-store", "backfill-forwarded-not-served")
+
+
+def run_backfill_for(ctx, clauses):
+    pkg, rx, mapping, stub, fname = PARTS[2]
+    ov = ctx.overlay(mapping, p2p_stub=stub)
+    if ov is None:
+        return
+    path = os.path.join(ctx.work, fname)
+    if os.path.exists(path):
+        os.remove(path)
+    rc, out = ctx.go_test("node", pkg, rx, ov, timeout=600 if ctx.tier == "quick" else 3000)
+    if rc != 0 or not os.path.exists(path):
+        tail = "\n".join(l for l in out.split("\n") if not l.startswith("missing: "))[-800:]
+        ctx.broken.append(("tie", "go-harness:" + pkg, tail))
+        return
+    nb = sum(1 for ln in open(path) if ln.startswith("bfill "))
+    before = len(ctx.spec_violations)
+    n_ok, stats = ctx.judge("db", path, classify)
+    kept = [v for v in ctx.spec_violations[before:] if v["key"] in clauses]
+    dropped = len(ctx.spec_violations) - before - len(kept)
+    ctx.spec_violations[before:] = kept
+    if dropped:
+        ctx.notes.append("%d Spec verdicts of the admin layer belong to C12 and are reported by its check" % dropped)
+    ctx.cov["evaluations"] += nb
+    ctx.cov["backfill_calls"] = nb
+
+
 def run(ctx):
     ctx.prove(families=("db",))
     total = 0
@@ -57,7 +87,10 @@ def run(ctx):
         "(targets 2,25,255 etc.); cases with sequences up to 2^64-1 (no gap query); cases with entries written straight into badger "
         "to reach the error returns; the key functions on a grid of boundary ids; the same through PublicrpcServer.GetSignedVAA / "
         "GetNonGovernanceVAABatch / GetGovernanceVAABatch (valid, upper-case, short, long, non-hex addresses, out-of-range enum "
-        "numbers, batch sizes 0..31, nil message id) and through nodePrivilegedService.FindMissingMessages. An evaluation = one "
+        "numbers, batch sizes 0..31, nil message id) and through nodePrivilegedService.FindMissingMessages - plain, and with RpcBackfill "
+        "against two fake public-RPC nodes (plus an unreachable one) scripted per missing sequence: the VAA of that id, arbitrary bytes, "
+        "no vaaBytes field, undecodable JSON / base64, 404, 500 / 403; compared: requests made, what reached the processor's inbound "
+        "channel, the reply, and the plain report right after (the admin service never writes the store). An evaluation = one "
         "operation line; distinct_nontrivial = operations on which model and implementation agreed and the Spec (answer judged "
         "against lastStored / specGap(streamSeqs) / specGov of the implementation's own history) held")
     ctx.cov["trusted_base"] += [
